@@ -326,12 +326,13 @@ Section Run.
     end.
 End Run.
 
-Inductive basekind := KMem | KPhys | KEmb (files : list (path * bytes)).
+Inductive basekind := KMem | KPhys | KEmb (files : list (path * bytes)) | KPhysDir (files : list (path * bytes)).
 Definition init_base (k : basekind) : bstate :=
   match k with
   | KMem => BMem mem_new
   | KPhys => BPhys phys_new
   | KEmb files => BEmb (emb_new files)
+  | KPhysDir files => BPhys (phys_of_files files)
   end.
 Definition init_store (ks : list basekind) : store := mkStore (map init_base ks) [] [] None.
 
